@@ -278,7 +278,15 @@ double _vnacal_new_solve_calc_pvalue(vnacal_new_solve_state_t *vnssp,
      * If the result is small, we can reject the null hypothesis that
      * the data are consistent with the model.
      */
-    assert(!isnan(chisq));
+    /*
+     * If the error terms degenerated (e.g. the weighted iteration on
+     * grossly inconsistent data collapsed toward the zero solution and
+     * the V matrices overflowed), the statistic is not a number: such
+     * data are not consistent with the model.
+     */
+    if (isnan(chisq)) {
+	return 0.0;
+    }
     assert(chisq >= 0.0);
     return chisq_pvalue(df, chisq);
 }
